@@ -173,7 +173,9 @@ def body(ch):
     got = outs[0]
     rec['observed'] = got
     want_span = (len(c['pre']), len(c['pre']) + len(c['literal']) - 1)
-    hit = [g for g in got if (g[0], g[1]) == want_span]
+    # the entity may absorb a determiner of the carrier ('il 10/10/2000' in Italian); what C06 fixes is the value of the
+    # entity that covers the literal, so the span must cover the literal and stay inside carrier prefix + literal
+    hit = [g for g in got if g[0] <= want_span[0] and g[1] == want_span[1]]
     if len(got) != 1 or not hit:
         kind = 'missing' if not got else ('split' if not hit else 'extra-entity')
         ch.fail('%s|%s' % (cls, kind), rec, evals=len(outs))
